@@ -418,6 +418,9 @@ func planFor(prop string) *PropPlan {
 	switch prop {
 	case "C01", "C02", "C13":
 		quick := 32
+		if prop == "C02" {
+			quick = 48 // nine conflict families: each should get several samples
+		}
 		if prop == "C13" {
 			quick = 72 // reader samples are cheap; writer kind x layout x reader kind needs more of them
 		}
